@@ -29,7 +29,8 @@ without initialiser (reading one before it is assigned is rejected) are supporte
 A parameter `T *&dest` with a non-const pointee that is used only in statements `*dest++ = e` is a write-only cursor:
 the function returns the pair (result, list of the values stored, in order, each converted to T).  The pair of
 statements `std::char_traits<char>::copy(dest, A, n); dest += n;` with A a namespace-scope constant array appends the
-first n elements of A (its contents are supplied by the compiler).
+first n elements of A (its contents are supplied by the compiler).  A call of _ST_PRIVATE::assert_handler (the expansion
+of ST_ASSERT) ends the function with the result ext_abort = -1.
 Anything else makes the translation of that function fail (reported; the obligation that mentions it then no longer
 compiles)."""
 import json
@@ -76,12 +77,13 @@ TARGETS = [
     ('latin_1_convert_from_utf8', '_ST_PRIVATE::conversion_error_t (char *, const char *, size_t, ST::utf_validation_t, bool)'),
     ('latin_1_convert_from_utf16', '_ST_PRIVATE::conversion_error_t (char *, const char16_t *, size_t, ST::utf_validation_t, bool)'),
     ('latin_1_convert_from_utf32', '_ST_PRIVATE::conversion_error_t (char *, const char32_t *, size_t, ST::utf_validation_t, bool)'),
+    ('utf8_convert_from_utf16', '_ST_PRIVATE::conversion_error_t (char *, const char16_t *, size_t, ST::utf_validation_t)'),
 ]
 # a pointer parameter that points into the array of another parameter (one past its end): it is passed as an index
 # functions whose first `T *` parameter with a non-const pointee is a write-only cursor (used only as `*p++ = e`)
 PLAIN_CURSOR_FUNCS = ('utf8_convert_from_latin_1', 'utf16_convert_from_utf32', 'utf8_convert_from_utf32', 'utf32_convert_from_utf8',
                       'utf32_convert_from_utf16', 'utf16_convert_from_utf8', 'utf16_convert_from_latin_1', 'utf32_convert_from_latin_1',
-                      'latin_1_convert_from_utf8', 'latin_1_convert_from_utf16', 'latin_1_convert_from_utf32')
+                      'latin_1_convert_from_utf8', 'latin_1_convert_from_utf16', 'latin_1_convert_from_utf32', 'utf8_convert_from_utf16')
 ALIAS_PARAMS = {('extract_utf8', 'end'): 'utf8', ('extract_utf16', 'end'): 'utf16'}
 # a translated function that returns a pointer returns it into the array of this parameter
 RET_BASE_PARAM = 0
@@ -553,7 +555,7 @@ class Translator:
     def always_returns(self, s):
         k = s.get('kind')
         inner = [c for c in (s.get('inner') or []) if isinstance(c, dict)]
-        if k in ('ReturnStmt', 'ContinueStmt'):
+        if k in ('ReturnStmt', 'ContinueStmt') or is_assert_call(s):
             return True
         if k == 'CompoundStmt':
             return any(self.always_returns(c) for c in inner)
@@ -681,6 +683,13 @@ class Translator:
             return self.stmts(inner + rest, env)
         if k == 'NullStmt':
             return self.stmts(rest, env)
+        if is_assert_call(s):
+            v = 'ext_abort'
+            if self.ref_ptrs:
+                raise Unsupported('assertion in a function with a T*& parameter')
+            if self.out_cursor is not None and not self.void:
+                v = '(%s, %s)' % (v, env[('out', self.out_cursor)])
+            return '(Some %s)' % v if self.opt else v
         if k == 'ContinueStmt':
             if not self.loop_stack:
                 raise Unsupported('continue outside a loop')
@@ -690,7 +699,9 @@ class Translator:
             cond = inner[1]
             while cond.get('kind') in ('ImplicitCastExpr', 'ParenExpr'):
                 cond = cond['inner'][0]
-            if cond.get('kind') != 'CXXBoolLiteralExpr' or cond.get('value'):
+            is_false = (cond.get('kind') == 'CXXBoolLiteralExpr' and not cond.get('value')) or \
+                       (cond.get('kind') == 'IntegerLiteral' and int(cond.get('value', '1')) == 0)
+            if not is_false:
                 raise Unsupported('do loop other than do { } while (false)')
             if contains_kind(inner[0], ('ContinueStmt', 'BreakStmt')):
                 raise Unsupported('break / continue inside do { } while (false)')
@@ -786,7 +797,7 @@ class Translator:
                 t = self.stmts([then], env)
                 e = self.stmts([els] if els is not None else rest, env)
                 return self.with_binds(binds, '(if z2b %s then %s else %s)' % (cond, t, e))
-        if k == 'IfStmt' and (contains_kind(s, ('ReturnStmt', 'ContinueStmt')) or
+        if k == 'IfStmt' and (contains_kind(s, ('ReturnStmt', 'ContinueStmt')) or contains_assert(s) or
                               (self.out_cursor is not None and (contains_store(s, self.out_cursor) or self.contains_outcall(s)))):
             # some path returns, some falls through: the rest of the block is translated in both branches
             cond, _, binds = self.full_expr(inner[0], env)
@@ -1026,6 +1037,18 @@ def is_cursor_store(lhs, vid):
     return y.get('kind') == 'DeclRefExpr' and (y.get('referencedDecl') or {}).get('id') == vid
 
 
+def is_assert_call(s):
+    return isinstance(s, dict) and s.get('kind') == 'CallExpr' and call_name(s) == 'assert_handler'
+
+
+def contains_assert(n):
+    if not isinstance(n, dict):
+        return False
+    if is_assert_call(n):
+        return True
+    return any(contains_assert(c) for c in (n.get('inner') or []))
+
+
 def call_name(n):
     inner = [c for c in (n.get('inner') or []) if isinstance(c, dict)]
     c = inner[0] if inner else {}
@@ -1070,6 +1093,7 @@ Definition wrapu (bits : Z) (x : Z) : Z := x mod 2 ^ bits.
 Definition wraps (bits : Z) (x : Z) : Z := (x + 2 ^ (bits - 1)) mod 2 ^ bits - 2 ^ (bits - 1).
 Definition b2z (b : bool) : Z := if b then 1 else 0.
 Definition z2b (x : Z) : bool := negb (x =? 0).
+Definition ext_abort : Z := (-1).
 '''
 
 
